@@ -336,7 +336,7 @@ class Interp:
             e.extend_to(pos)
             return pos
         if k == "LEAD":
-            bs = self.to_bytes(internal, base, None, hilo)
+            bs = self.to_bytes(internal, base, enc, hilo)
             n = d["bits"]
             if len(bs) >> n:
                 raise Reject("length does not fit into the length field")
@@ -465,7 +465,7 @@ class Interp:
             ln, pos = word(d["bits"], True)
             if pos + ln > len(pdu):
                 raise Short()
-            return self.from_bytes(pdu[pos:pos + ln], base, None, hilo), pos + ln
+            return self.from_bytes(pdu[pos:pos + ln], base, enc, hilo), pos + ln
         if k == "PLEN":
             if d["key"] not in lk:
                 raise DontCare("length key after its dependant")
